@@ -282,7 +282,11 @@ func assignSpelling(op string, p *printer) string {
 func (p *printer) stmt(s *Stmt) {
 	switch s.K {
 	case "line":
-		p.lineMode(p.text(s.Text)+p.tags(s.Tags), len(s.Tags) == 0)
+		l := p.text(s.Text)
+		if s.E != nil { // a condition on a plain line (ignored by the language)
+			l += " " + p.cmd("if", printExpr(s.E, p.style))
+		}
+		p.lineMode(l+p.tags(s.Tags), s.E == nil && len(s.Tags) == 0)
 	case "opts":
 		for i, o := range s.Opts {
 			if i > 0 {
